@@ -82,7 +82,9 @@ def c13(tier, seed):
         ref, allp = canon_analysis(base)
         pairs = allp if len(allp) <= 12 else ex.rng.sample(allp, 12)
         ref, _ = canon_analysis(base, pairs)
-        nwk = core.nwk_of(D); nwk_noint = core.nwk_of(D, with_internal=False)
+        quoted = ex.rng.random() < 0.5          # every label in single quotes: the same tree for every route
+        ex.res.count('newick_labels_quoted' if quoted else 'newick_labels_plain')
+        nwk = core.nwk_of(D, quoted=quoted); nwk_noint = core.nwk_of(D, with_internal=False, quoted=quoted)
         xml_lines = gen.orthoxml(D.species, D.groups, newlines=True)
         xml_one = gen.orthoxml(D.species, D.groups, newlines=False)
         d = os.path.join(ex.tmp, 'c13'); os.makedirs(d, exist_ok=True)
@@ -447,7 +449,10 @@ def c15(tier, seed):
                 gsn = genomes_of(h)
                 ex.res.count('mrca_set_lookups')
                 try:
-                    got = h.get_ancestral_genome_by_mrca_of_genome_set(set(sub_))
+                    arg_ = set(sub_)
+                    got = h.get_ancestral_genome_by_mrca_of_genome_set(arg_)
+                    if arg_ != set(sub_):
+                        bad.append('get_ancestral_genome_by_mrca_of_genome_set modified the set it was given')
                     if want_p not in gsn or got is not gsn[want_p]:
                         bad.append('mrca lookup of %s returned %s, expected the genome at %s' % ([taxS(pathof(x.taxon)) for x in sub_], got.name, taxS(want_p)))
                 except KeyError:
